@@ -1325,33 +1325,29 @@ impl SvgElement {
 
     fn resolve_size_delta(&mut self) {
         // assumes "width"/"height"/"r"/"rx"/"ry" are numeric if present
-        let (w, h) = match self.name.as_str() {
-            "circle" => {
-                let diam = self.get_attr("r").map(|r| 2. * strp(&r).unwrap_or(0.));
-                (diam, diam)
-            }
-            "ellipse" => (
-                self.get_attr("rx")
-                    .and_then(|rx| strp(&rx).ok())
-                    .map(|x| x * 2.),
-                self.get_attr("ry")
-                    .and_then(|ry| strp(&ry).ok())
-                    .map(|x| x * 2.),
-            ),
-            _ => (
-                self.get_attr("width").and_then(|w| strp(&w).ok()),
-                self.get_attr("height").and_then(|h| strp(&h).ok()),
-            ),
+        //
+        // Circles / ellipses may hold their size as radii (r / rx / ry) or - e.g. after
+        // `wh` expansion - as width / height; adjust whichever attribute is present.
+        let (w_radius, h_radius) = match self.name.as_str() {
+            "circle" => (Some("r"), Some("r")),
+            "ellipse" => (Some("rx"), Some("ry")),
+            _ => (None, None),
         };
-
-        if let Some(dw) = self.pop_attr("dw") {
-            if let Ok(Some(new_w)) = strp_length(&dw).map(|dw| w.map(|x| dw.adjust(x))) {
-                self.set_attr("width", &fstr(new_w));
-            }
-        }
-        if let Some(dh) = self.pop_attr("dh") {
-            if let Ok(Some(new_h)) = strp_length(&dh).map(|dh| h.map(|x| dh.adjust(x))) {
-                self.set_attr("height", &fstr(new_h));
+        for (delta_attr, radius_attr, box_attr) in
+            [("dw", w_radius, "width"), ("dh", h_radius, "height")]
+        {
+            if let Some(delta) = self.pop_attr(delta_attr) {
+                let (size_attr, scale) = match radius_attr {
+                    Some(r) if self.has_attr(r) => (r, 2.),
+                    _ => (box_attr, 1.),
+                };
+                let size = self
+                    .get_attr(size_attr)
+                    .and_then(|v| strp(&v).ok())
+                    .map(|v| v * scale);
+                if let Ok(Some(new_size)) = strp_length(&delta).map(|d| size.map(|x| d.adjust(x))) {
+                    self.set_attr(size_attr, &fstr(new_size / scale));
+                }
             }
         }
     }
